@@ -157,9 +157,15 @@ impl DownloadManifestBuilder {
     /// Add a tag to the manifest
     ///
     /// Tags are used to categorize files for selective downloading.
-    /// The tag name must be unique within the manifest.
+    /// The tag name is unique within the manifest: adding a name that is
+    /// already present keeps the existing tag, its type and its file
+    /// associations.
     #[must_use]
     pub fn add_tag(mut self, name: String, tag_type: TagType) -> Self {
+        if self.tag_name_to_index.contains_key(&name) {
+            return self;
+        }
+
         let bit_mask_size = self.entries.len().div_ceil(8);
         let tag = DownloadTag {
             name: name.clone(),
@@ -837,6 +843,30 @@ mod tests {
                 .expect("Operation should succeed"),
             &vec![0xEF, 0x01]
         );
+    }
+
+    #[test]
+    fn test_add_tag_twice_keeps_one_tag() {
+        let manifest = DownloadManifestBuilder::new(1)
+            .expect("Operation should succeed")
+            .add_tag("Windows".to_string(), TagType::Platform)
+            .add_file(EncodingKey::from_bytes([1; 16]), 7, 0)
+            .expect("Operation should succeed")
+            .associate_file_with_tag(0, "Windows")
+            .expect("Operation should succeed")
+            .add_tag("Windows".to_string(), TagType::Platform)
+            .add_file(EncodingKey::from_bytes([2; 16]), 5, 0)
+            .expect("Operation should succeed")
+            .associate_file_with_tag(1, "Windows")
+            .expect("Operation should succeed")
+            .build()
+            .expect("Operation should succeed");
+
+        assert_eq!(manifest.tags.len(), 1);
+        let data = manifest.build().expect("Operation should succeed");
+        let parsed = DownloadManifest::parse(&data).expect("Operation should succeed");
+        assert_eq!(parsed.entries_by_tag("Windows").len(), 2);
+        assert_eq!(parsed.calculate_size_for_tags(&["Windows"]), 12);
     }
 
     #[test]
